@@ -23,7 +23,8 @@ RULE = ('binary: operand pair (a, b) over integer/decimal/float/double/untypedAt
         '(a idiv b)*b + (a mod b) against the F&O reference tower (value AND type; XPath 1.0: value of the all-double '
         'semantics). unary: unary - +, abs, floor, ceiling, round[,p], round-half-to-even[,p], p in -4..6. grid2/grid1: '
         'complete enumeration of the boundary grid. non-trivial = mixed operand signs, mixed operand types, a .5 tie, a '
-        'zero divisor or a non-finite / negative-zero operand; distinct by (mode, form, op, type and lexical of each operand, p).')
+        'zero divisor or a non-finite / negative-zero operand; distinct by (mode, form, type and lexical of each operand, p): one distinct '
+        'case stands for all operators / functions evaluated on it (evaluations counts each of them).')
 ASSUMPTIONS = [
     'xs:decimal results must be exact when the exact result has <= 18 significant digits; beyond that (and for '
     'non-terminating quotients) a relative error of 1e-17 is accepted (F&O: implementation-defined precision >= 18 digits)',
@@ -52,6 +53,7 @@ MODES = ('1.0', '2.0', '3.0', '3.1')
 PRECISIONS = tuple(range(-4, 7))
 
 _PARSERS: dict = {}
+_TOKENS: dict = {}
 
 
 def _parser(mode):
@@ -69,12 +71,18 @@ def _parser(mode):
 # observation
 # --------------------------------------------------------------------------
 
-def observe(mode: str, expr: str, variables: dict):
+def observe(mode: str, expr: str, variables: dict, cache: bool = False):
     """-> ('value', xpath_type, refvalue) | ('error', code) | ('escape', exc) | ('other', repr)"""
     from elementpath import XPathContext, ElementPathError
     from elementpath.datatypes import Float
     try:
-        tok = _parser(mode).parse(expr)
+        if cache:
+            # operands passed as variables only: the expression text repeats, parse it once per mode
+            tok = _TOKENS.get((mode, expr))
+            if tok is None:
+                tok = _TOKENS[(mode, expr)] = _parser(mode).parse(expr)
+        else:
+            tok = _parser(mode).parse(expr)
         res = tok.get_results(XPathContext(root=None, item=1, variables=variables))
     except ElementPathError as e:
         code = (e.code or '').split(':')[-1]
@@ -244,6 +252,7 @@ def judge_binary(case, rec: Recorder | None = None) -> list[Disc]:
     sa = _render(mode, form, a, 'a', variables)
     sb = _render(mode, form, b, 'b', variables)
     ptype, px, py = N.promote(ra, rb)
+    allvar = sa.startswith('$') and sb.startswith('$')
     types = f'{a[0]},{b[0]}'
     discs: list[Disc] = []
     ops = case.get('ops') or (BIN_OPS_10 if x1 else BIN_OPS)
@@ -252,7 +261,7 @@ def judge_binary(case, rec: Recorder | None = None) -> list[Disc]:
     for op in ops:
         exp = N.binop(op, ra, rb)
         expr = f'{sa} {op} {sb}'
-        obs = observe(mode, expr, variables)
+        obs = observe(mode, expr, variables, allvar)
         cls = _bin_class(op, px, py)
         before = len(discs)
         dbl = None
@@ -262,8 +271,9 @@ def judge_binary(case, rec: Recorder | None = None) -> list[Disc]:
         if x1 and len(discs) > before and (obs[0] == 'error' or (obs[0] == 'value' and obs[1] in ('integer', 'decimal'))):
             # XPath 1.0 numbers kept as int/Decimal: the result is the exact (2.0-style) one instead of the double one
             e2 = N.binop(op, _read10(a, sa), _read10(b, sb))
-            if not e2.is_error and e2.type in ('integer', 'decimal') and \
-                    (obs[1] in e2.or_codes if obs[0] == 'error' else e2.accepts_value(obs[2])):
+            if (e2.is_error and obs[0] == 'error' and obs[1] in e2.codes) or \
+                    (not e2.is_error and e2.type in ('integer', 'decimal') and
+                     (obs[1] in e2.or_codes if obs[0] == 'error' else e2.accepts_value(obs[2]))):
                 del discs[before:]
                 discs.append(Disc(f'C06/xp1/exact-arithmetic-kept/{op}', repr(exp), repr(obs[1:]), f'{mode} {expr}'))
         _rebucket(discs, before, op, exp, obs, negzero)
@@ -274,12 +284,12 @@ def judge_binary(case, rec: Recorder | None = None) -> list[Disc]:
         qa, qb = Fraction(ra[1]), Fraction(rb[1])
         q = int(qa / qb)
         r = qa - qb * q
-        if all((N.sig_digits(z) or 99) <= N.DEC_DIGITS for z in (qa, qb, Fraction(q), qb * q, r)):
+        if all((N.sig_digits(z) or 99) <= N.DEC_DIGITS for z in (qa, qb, qb * q, r)) and len(str(abs(q))) <= N.DEC_DIGITS:
             ident = True
             t = 'integer' if ra[0] == rb[0] == 'integer' else 'decimal'
             exp = N.Exp(t, int(qa) if t == 'integer' else qa, note='a = (a idiv b)*b + (a mod b)')
             expr = f'({sa} idiv {sb}) * {sb} + ({sa} mod {sb})'
-            obs = observe(mode, expr, variables)
+            obs = observe(mode, expr, variables, allvar)
             before = len(discs)
             _compare(exp, obs, f'C06/identity/{_bin_class("idiv", px, py)}', types, False, discs, f'{mode} {expr}')
             _rebucket(discs, before, 'identity', exp, obs, negzero)
@@ -298,9 +308,8 @@ def judge_binary(case, rec: Recorder | None = None) -> list[Disc]:
             if flag:
                 classes.append('bin:' + name)
         nt = mixed_sign or mixed_type or zero_div or nonfin
-        rec.case(None, classes=classes, n=0)
-        for op in ops:
-            rec.case([mode, form, op, a, b], nontrivial=nt, sample={'check': 'binary', 'expr': f'{sa} {op} {sb}', 'mode': mode})
+        rec.case([mode, form, a, b], nontrivial=nt, classes=classes, n=len(ops) + ident,
+                 sample={'check': 'binary', 'mode': mode, 'exprs': [f'{sa} {op} {sb}' for op in ops]})
     return discs
 
 
@@ -359,7 +368,7 @@ def judge_unary(case, rec: Recorder | None = None) -> list[Disc]:
         pp = p if with_p else 0
         exp = N.unop(fn, ra, pp)
         expr = tmpl.format(x=sa, p=pp)
-        obs = observe(mode, expr, variables)
+        obs = observe(mode, expr, variables, sa.startswith('$'))
         name = fn + ('2' if with_p else '')
         before = len(discs)
         dbl = N.unop(fn, _widen(ra), pp) if ra[0] == 'float' else None
@@ -369,6 +378,11 @@ def judge_unary(case, rec: Recorder | None = None) -> list[Disc]:
             if e2.type in ('integer', 'decimal') and e2.accepts_value(obs[2]):
                 del discs[before:]
                 discs.append(Disc(f'C06/xp1/exact-arithmetic-kept/{name}', repr(exp), f'{obs[1]}({N.fmt(obs[2])})', f'{mode} {expr}'))
+        if fn == 'rhe' and ra[0] == 'decimal' and len(discs) > before and \
+                len(str(abs(int(ra[1])))) + max(pp, 0) > 28 and discs[before].bucket.split('/')[-2] == 'value':
+            # the quantized result needs more than the 28 digits of the default decimal context: elementpath falls
+            # back to binary floating point (pinned by tests/test_xpath2_functions.py::test_round_half_to_even_function)
+            discs[before].bucket = f'C06/rhe-decimal-beyond-28-digits/{name}'
         _rebucket(discs, before, name, exp, obs, _dec_negzero(a) and not sa.startswith('('))
         done.append((name, pp, expr))
     if rec is not None:
@@ -379,10 +393,8 @@ def judge_unary(case, rec: Recorder | None = None) -> list[Disc]:
         for flag, name in ((neg, 'negative'), (tie, 'tie'), (not fin, 'nonfinite'), (p < 0, 'negative-precision')):
             if flag:
                 classes.append('un:' + name)
-        rec.case(None, classes=classes, n=0)
-        for name, pp, expr in done:
-            rec.case([mode, form, name, a, pp], nontrivial=neg or tie or not fin,
-                     sample={'check': 'unary', 'expr': expr, 'mode': mode})
+        rec.case([mode, form, a, p, case.get('fns')], nontrivial=neg or tie or not fin, classes=classes, n=len(done),
+                 sample={'check': 'unary', 'mode': mode, 'exprs': [e for _, _, e in done]})
     return discs
 
 
@@ -394,17 +406,21 @@ _form = st.sampled_from(['lit', 'ctor', 'var'])
 _TYPES_10 = ('integer', 'decimal', 'double')
 
 
+_PAIR_10, _PAIR_ALL = A.numeric_pair(_TYPES_10), A.numeric_pair()
+_NUM_10, _NUM_ALL = A.numeric(_TYPES_10), A.numeric(A.NUMERIC_TYPES)
+
+
 @st.composite
 def binary_case(draw):
     mode = draw(_mode)
-    pair = draw(A.numeric_pair(_TYPES_10) if mode == '1.0' else A.numeric_pair())
+    pair = draw(_PAIR_10 if mode == '1.0' else _PAIR_ALL)
     return {'mode': mode, 'form': draw(_form), 'a': pair[0], 'b': pair[1]}
 
 
 @st.composite
 def unary_case(draw):
     mode = draw(_mode)
-    a = draw(A.numeric(_TYPES_10) if mode == '1.0' else A.numeric(A.NUMERIC_TYPES))
+    a = draw(_NUM_10 if mode == '1.0' else _NUM_ALL)
     return {'mode': mode, 'form': draw(_form), 'a': a, 'p': draw(st.sampled_from(PRECISIONS))}
 
 
@@ -465,14 +481,16 @@ def jobs(tier, seed):
     for i in range(k):
         out.append({'check': 'grid2', 'mode': '3.1', 'form': 'var', 'lo': total * i // k, 'hi': total * (i + 1) // k})
     n10 = len(_grid_atoms('1.0')) ** 2
-    out.append({'check': 'grid2', 'mode': '1.0', 'form': 'var', 'lo': 0, 'hi': n10})
+    for i in range(3):
+        out.append({'check': 'grid2', 'mode': '1.0', 'form': 'var', 'lo': n10 * i // 3, 'hi': n10 * (i + 1) // 3})
     out.append({'check': 'grid1', 'modes': [['3.1', 'var'], ['2.0', 'ctor'], ['1.0', 'var'], ['3.0', 'ctor']]})
     if not q:
         for i in range(k):
             out.append({'check': 'grid2', 'mode': '2.0', 'form': 'ctor', 'lo': total * i // k, 'hi': total * (i + 1) // k})
-        out.append({'check': 'grid2', 'mode': '1.0', 'form': 'lit', 'lo': 0, 'hi': n10})
-    nb, nu = (6, 2) if q else (10, 4)
-    per_b, per_u = (2500, 2500) if q else (40000, 30000)
+        for i in range(3):
+            out.append({'check': 'grid2', 'mode': '1.0', 'form': 'lit', 'lo': n10 * i // 3, 'hi': n10 * (i + 1) // 3})
+    nb, nu = (8, 3) if q else (12, 4)
+    per_b, per_u = (5000, 5000) if q else (100000, 80000)
     for i in range(nb):
         out.append({'check': 'binary', 'shard': i, 'n': per_b, 'seed': derive_seed(seed, 'C06', 'binary', i)})
     for i in range(nu):
